@@ -6,7 +6,7 @@
    rest of the queue as dropped, so the statements below hold for EVERY program, split and fuel). *)
 From Coq Require Import List Arith Bool Permutation.
 Import ListNotations.
-From Verif.C10 Require Import Model Proofs Proofs2 Proofs3.
+From Verif.C10 Require Import Model Proofs Proofs2 Proofs3 Proofs4.
 
 (* 1. goja's machine (double-buffered drain loop of Runtime.leave, leaveAbrupt) reaches exactly the
       state of the specification machine (HostEnqueuePromiseJob = plain FIFO): same event log, same
@@ -33,6 +33,13 @@ Theorem each_reaction_once : forall T fuel runs,
   NoDup (enq s) /\ NoDup (ran s) /\ NoDup (dropped s) /\ Permutation (ran s ++ dropped s) (enq s) /\
   (forall x, In x (dropped s) -> ~ In x (ran s)).
 Proof. exact Proofs2.accounting. Qed.
+
+(* 3b. a stored reaction record is turned into a job at most once: the ids of all records that ever
+       became jobs are distinct, and a record still stored in a promise has not been a job. *)
+Theorem reaction_record_jobbed_once : forall T fuel runs,
+  NoDup (jobbed (runI T fuel runs)) /\
+  (forall x, In x (prids (proms (runI T fuel runs))) -> ~ In x (jobbed (runI T fuel runs))).
+Proof. intros; split; [apply Proofs4.jobbed_nodup | intros x; apply Proofs4.stored_not_jobbed]. Qed.
 
 (* hence: a history in which nothing was discarded (no interrupt, no fuel exhaustion) executed
    exactly the enqueued jobs, each once *)
@@ -116,6 +123,26 @@ Example ex_interrupt :
   /\ outs (runI [] 100 ex_intr) = [(true, 0, 1); (false, 0, 2)].
 Proof. vm_compute. repeat split. Qed.
 
+(* async functions: `return p0` (a native promise) from an async function costs the thenable job and
+   its then job — the function's promise settles after t1, t2, t3 of a parallel chain; an await of a
+   fulfilled promise costs one tick; finally adds its two internal thens *)
+Definition ex_async : list (list op) :=
+  [ [ONew; ORes 0 (VInt 1)];
+    [OThen 0 (h 1 RetArg) None; OThen 1 (h 2 RetArg) None; OThen 2 (h 3 RetArg) None;
+     OAsync 50 false [] (ARet (VProm (PN 0))); OThen 4 (h 9 RetArg) None] ].
+Example ex_async_ticks :
+  log (runI [] 100 ex_async) = [(50, VUndef); (1, VInt 1); (2, VInt 1); (3, VInt 1); (9, VInt 1)].
+Proof. vm_compute. reflexivity. Qed.
+Definition ex_async2 : list (list op) :=
+  [ [ONew; ORes 0 (VInt 1)];
+    [OThen 0 (h 1 RetArg) None; OThen 1 (h 2 RetArg) None; OThen 2 (h 3 RetArg) None;
+     OAsync 50 false [VProm (PN 0); VInt 4] (ARet (VInt 7)); OThen 4 (h 9 RetArg) None;
+     OFinally 0 (mkScript 20 [] RetArg); OThen 6 (h 21 RetArg) None] ].
+Example ex_async_await_finally :
+  log (runI [] 100 ex_async2) =
+  [(50, VUndef); (1, VInt 1); (50, VInt 1); (20, VUndef); (2, VInt 1); (50, VInt 4); (3, VInt 1); (9, VInt 7); (21, VInt 1)].
+Proof. vm_compute. reflexivity. Qed.
+
 Print Assumptions promise_refines.
 Print Assumptions queue_empty_on_return.
 Print Assumptions each_reaction_once.
@@ -125,3 +152,4 @@ Print Assumptions settle_once.
 Print Assumptions latched_pair_is_noop.
 Print Assumptions tracker_language.
 Print Assumptions tracker_prefix.
+Print Assumptions reaction_record_jobbed_once.
